@@ -47,6 +47,8 @@ let result (ms : (Datatypes.nat * marker) list option) pc with_xref : string =
   | Res.Err _ -> "fail-other"
 
 let ideal_diff = ref 0
+let nfiles = ref 0
+let ntame = ref 0
 let ideal_out = lazy (open_out "ideal.txt")
 
 let () =
@@ -54,7 +56,10 @@ let () =
     match words line with
     | [_; "F"; hex] ->
       file := bytes_of_hex hex;
-      file_arr := Array.of_list !file
+      file_arr := Array.of_list !file;
+      (* does the hypothesis of the theorems hold of this file? *)
+      incr nfiles;
+      if WindowTheorems.tameb !file then incr ntame
     | id :: "C" :: cut :: x :: _k :: pcs ->
       let data = prefix (int_of_string cut) in
       let table = Hashtbl.create 16 in
@@ -74,5 +79,5 @@ let () =
         if !ideal_diff <= 50 then Printf.fprintf (Lazy.force ideal_out) "%s\n  windows: %s\n  ideal  : %s\n" id w i
       end
     | _ -> ());
-  Printf.fprintf (Lazy.force ideal_out) "total %d\n" !ideal_diff;
+  Printf.fprintf (Lazy.force ideal_out) "windowed and ideal search differ on %d cases; %d of %d files are tame\n" !ideal_diff !ntame !nfiles;
   close_out (Lazy.force ideal_out)
